@@ -36,6 +36,11 @@ package pipeline
 // is the record itself, minus a trailing newline if it has one - inputs hand
 // records over in both forms.)
 
+// A pooled event keeps the tree of the line it carried before: only the json and
+// protobuf decoders re-decode the root themselves; every other decoder (and the raw /
+// cri / postgres paths) adds fields to the root it is given, which must therefore
+// have been reset to an empty object first (ghost g_clean).
+
 //@ func (*Pipeline).In
 //@   ghost g_so int = 0
 //@   ghost g_spam bool = false
@@ -47,15 +52,22 @@ package pipeline
 //@   ghost g_undec bool = false
 //@   ensures result == 0 ==> !ok || g_undec || (g_so > 0 && offsets.current < g_so) || g_spam || g_pass0
 //@   callee AddFieldNoAlloc(root, name) (n)
+//@     requires g_clean || dec == decoder.JSON || dec == decoder.PROTOBUF
 //@     pure
 //@   callee MutateToBytesCopy(root, v)
 //@     requires dec == decoder.RAW ==> sameblock(v, bytes) && off(v) == off(bytes) && len(v) == ite(bytes[len(bytes) - 1] == '\n', len(bytes) - 1, len(bytes))
 //@   callee DecodeCRI(b) (row, e)
 //@     pure
 //@     set g_undec := e != nil
+//@   ghost g_clean bool = false
+//@   callee DecodeString(s) (e)
+//@     requires s == "{}"
+//@     set g_clean := true
 //@   callee DecodeToJson(root, b) (e)
+//@     requires root == event.Root && (g_clean || dec == decoder.JSON || dec == decoder.PROTOBUF)
 //@     set g_undec := e != nil
 //@   callee DecodePostgresToJson(root, b) (e)
+//@     requires root == event.Root && g_clean
 //@     set g_undec := e != nil
 //@   callee ByStream(stream) (r)
 //@     pure
